@@ -60,7 +60,7 @@ F_LIB = "join/src/lib.rs"
 M_OF_COMB = "meaning_of_ctor(parse_table({c}).1)"
 
 
-MODULES = ["core", "optable", "entries", "gen", "guards", "names"]
+MODULES = ["core", "optable", "entries", "gen", "guards", "names", "det"]
 
 
 def common_units():
@@ -338,6 +338,9 @@ def build_plan(repo, module):
         u.append(raw("lemma", _read("lemma_optable.rs")))
     elif module == "entries":
         u.append(raw("lemma", _read("lemma_entries.rs")))
+    elif module == "det":
+        u.append(raw("lemma_optable_defs", _read("lemma_optable.rs")))
+        u.append(raw("lemma", _read("lemma_det.rs")))
     elif module == "names":
         u.append(raw("lemma", _read("lemma_names.rs")))
     elif module == "gen":
@@ -366,6 +369,7 @@ OBLIGATIONS = {
     "C04": [("gen", "JoinOutput::is_branch_active_in_step"), ("gen", "JoinOutput::generate_indexed_step_results_name")],
     "C07": [("entries", "lemma_entry_table")],
     "C13": [("guards", "new_guards")],
+    "C14": [("det", "lemma_first_match_is_longest"), ("optable", "lemma_operator_tables")],
     "C16": [("guards", "new_init_lazy_branches"), ("guards", "new_init_transpose")],
     "C17": [("names", "lemma_names_never_clash"), ("names", "lemma_names_table"), ("names", "lemma_name3_injective"), ("names", "lemma_name1_injective"), ("names", "lemma_distinguishable"), ("names", "lemma_names_strlits")] + [("core", n) for n in ['construct_var_name', 'construct_step_results_name', 'construct_result_name', 'construct_thread_builder_name', 'construct_inspect_fn_name', 'construct_spawn_tokio_fn_name', 'construct_results_name', 'construct_handler_name', 'construct_internal_value_name', 'construct_thread_builder_fn_name', 'construct_expr_wrapper_name']],
     "C20": [("core", n) for n in ['construct_var_name', 'construct_step_results_name', 'construct_result_name', 'construct_thread_builder_name', 'construct_inspect_fn_name', 'construct_spawn_tokio_fn_name', 'construct_results_name', 'construct_handler_name', 'construct_internal_value_name', 'construct_thread_builder_fn_name', 'construct_expr_wrapper_name']],
